@@ -6,8 +6,8 @@
 (* per-operation bookkeeping (planned instances from the allocation calls,     *)
 (* containers created / logged before a crash) that the predicates need.       *)
 EXTENDS ClusterState, TraceBase
-VARIABLES l, hdr, pre, prior, planned, injected, crashed, msgs, retv, created, logged, nalloc, natural, lamb
-tvars == <<l, hdr, pre, prior, planned, injected, crashed, msgs, retv, created, logged, nalloc, natural, lamb>>
+VARIABLES l, hdr, pre, prior, planned, injected, crashed, msgs, retv, created, logged, nalloc, natural, lamb, lastcap
+tvars == <<l, hdr, pre, prior, planned, injected, crashed, msgs, retv, created, logged, nalloc, natural, lamb, lastcap>>
 
 OpKind == hdr.scenario.op.kind
 Where == (IF Has(hdr, "store") /\ hdr.store = "redis" THEN "redis-store/" ELSE "") \o OpKind \o "/" \o (IF crashed # "none" THEN "crash@" \o crashed ELSE IF injected # "none" THEN "fault@" \o injected ELSE "fault-free")
@@ -78,6 +78,32 @@ ControlOK(s) ==
     /\ {WlCore(x.w) : x \in AllWls(s)} = {WlCore(x.w) : x \in AllWls(pre)}
     /\ \A i \in OkMsgs : msgs[i].id \in WlIds(s) /\ FindWl(s, msgs[i].id).w.running = (hdr.scenario.op.delta # "stop")
 
+\* beyond the listed properties: the capacity query.  It never changes anything; for requests without CPU binding and
+\* the plain ("DUMMY") rule every node is offered with (free memory) div (requested memory) instances, nodes with none
+\* are not offered, and the total is their sum; refused only when no node has any.  For the deployment rules, the plan
+\* it reports has as many instances as the same deployment then creates on the unchanged state (the same per node
+\* for EACH; AUTO and FILL break ties between equal nodes by the order of a Go map, so only the number is fixed).
+MemReq(req) == IF req = "m" THEN 2 ELSE 1
+WantCap(nd, req) == LET free == nd.cap.mem - nd.use.mem IN IF free <= 0 THEN 0 ELSE free \div MemReq(req)
+CapOf(pc, n) == LET R == {i \in 1..Len(pc) : pc[i].node = n} IN IF R = {} THEN 0 ELSE pc[CHOOSE i \in R : TRUE].n
+Offered(pc) == {pc[i].node : i \in 1..Len(pc)}
+Usable(s) == {i \in 1..Len(s.nodes) : s.nodes[i].hasres /\ ~s.nodes[i].bypass}
+CapacityByMemoryOK(s, rt) ==
+    LET req == hdr.scenario.op.req IN
+    IF rt.class = "ok"
+    THEN /\ \A i \in Usable(s) : CapOf(rt.percap, s.nodes[i].name) = WantCap(s.nodes[i], req) /\ (WantCap(s.nodes[i], req) = 0 => s.nodes[i].name \notin Offered(rt.percap))
+         /\ Offered(rt.percap) \subseteq {s.nodes[i].name : i \in Usable(s)}
+         /\ rt.total = SumSeq([i \in 1..Len(rt.percap) |-> rt.percap[i].n])
+    ELSE \A i \in Usable(s) : WantCap(s.nodes[i], req) = 0
+NewOn(s, n) == Cardinality({x \in AllWls(s) : x.node = n /\ x.w.id \notin WlIds(pre)})
+SameAsk(a, b) == a.strategy = b.strategy /\ a.count = b.count /\ a.req = b.req /\ a.app = b.app
+CreateFollowsCapacity(s, rt) ==
+    IF lastcap.class = "ok"
+    THEN /\ rt.class = "ok" /\ ErrMsgs = {}
+         /\ Cardinality(OkMsgs) = lastcap.total
+         /\ (lastcap.op.strategy = "EACH" => \A i \in 1..Len(s.nodes) : NewOn(s, s.nodes[i].name) = CapOf(lastcap.percap, s.nodes[i].name))
+    ELSE OkMsgs = {}
+
 \* C13 after the deployment returned: no marker of the application, counts = recorded
 \* (markers that were already there before the call belong to an earlier deployment of a history)
 NoMarkers(s) == \A i \in 1..Len(s.proc) : s.proc[i].app = hdr.scenario.op.app => \E j \in 1..Len(pre.proc) : pre.proc[j].ident = s.proc[i].ident
@@ -92,7 +118,7 @@ WhyRecovered(s) == IF ~(\A id \in WlIds(pre) : PartUntouched(s, id)) THEN "pre-e
                    ELSE "unrecorded-container-left"
 
 TraceInit == /\ l = 1 /\ hdr = <<>> /\ pre = <<>> /\ prior = <<>> /\ planned = <<>> /\ injected = "none" /\ crashed = "none"
-             /\ msgs = <<>> /\ retv = <<>> /\ created = 0 /\ logged = 0 /\ nalloc = <<>> /\ natural = "none" /\ lamb = 0
+             /\ msgs = <<>> /\ retv = <<>> /\ created = 0 /\ logged = 0 /\ nalloc = <<>> /\ natural = "none" /\ lamb = 0 /\ lastcap = <<>>
 StateChecks(s, when) ==
     /\ Report(UsageIsSum(s), "C10", l, "usage-differs-from-workload-sum/" \o when \o "/" \o Where)
     /\ Report(NoOvercommit(s), "C10", l, "usage-above-capacity/" \o when \o "/" \o Where)
@@ -107,10 +133,11 @@ TraceNext ==
        CASE e.ev = "Run" ->
               /\ hdr' = e /\ pre' = <<>> /\ prior' = <<>> /\ planned' = <<>> /\ injected' = "none" /\ crashed' = "none"
               /\ msgs' = <<>> /\ retv' = <<>> /\ created' = 0 /\ logged' = 0 /\ nalloc' = <<>> /\ natural' = "none" /\ lamb' = 0
+              /\ lastcap' = (IF lastcap # <<>> /\ Has(e, "history") /\ lastcap.history = e.history /\ lastcap.run + 1 = e.run THEN lastcap ELSE <<>>)
          [] e.ev = "Snap" /\ e.when = "pre" ->
               /\ pre' = e /\ StateChecks(e, "pre-state")
-              /\ UNCHANGED <<hdr, prior, planned, injected, crashed, msgs, retv, created, logged, nalloc, natural, lamb>>
-         [] e.ev = "Prior" -> prior' = e.rows /\ UNCHANGED <<hdr, pre, planned, injected, crashed, msgs, retv, created, logged, nalloc, natural, lamb>>
+              /\ UNCHANGED <<hdr, prior, planned, injected, crashed, msgs, retv, created, logged, nalloc, natural, lamb, lastcap>>
+         [] e.ev = "Prior" -> prior' = e.rows /\ UNCHANGED <<hdr, pre, planned, injected, crashed, msgs, retv, created, logged, nalloc, natural, lamb, lastcap>>
          [] e.ev = "Ext" ->
               /\ injected' = (IF e.class = "injected" /\ injected = "none" THEN e.target \o "." \o e.method ELSE injected)
               /\ planned' = (IF e.target = "rmgr" /\ e.method = "Alloc" /\ e.class = "ok"
@@ -126,10 +153,15 @@ TraceNext ==
                               ELSE IF e.class = "err" /\ injected = "none" /\ e.target \in {"store", "plugin", "engine", "wal"} /\ natural = "none"
                               THEN e.target \o "." \o e.method ELSE natural)
               /\ created' = (IF e.target = "engine" /\ e.method = "Create" /\ e.class = "ok" THEN created + 1 ELSE created)
-              /\ UNCHANGED <<hdr, pre, prior, crashed, msgs, retv>>
-         [] e.ev = "Crash" -> crashed' = e.target \o "." \o e.method /\ UNCHANGED <<hdr, pre, prior, planned, injected, msgs, retv, created, logged, nalloc, natural, lamb>>
-         [] e.ev = "Msg" -> msgs' = Append(msgs, e) /\ UNCHANGED <<hdr, pre, prior, planned, injected, crashed, retv, created, logged, nalloc, natural, lamb>>
-         [] e.ev = "Return" -> retv' = e /\ UNCHANGED <<hdr, pre, prior, planned, injected, crashed, msgs, created, logged, nalloc, natural, lamb>>
+              /\ UNCHANGED <<hdr, pre, prior, crashed, msgs, retv, lastcap>>
+         [] e.ev = "Crash" -> crashed' = e.target \o "." \o e.method /\ UNCHANGED <<hdr, pre, prior, planned, injected, msgs, retv, created, logged, nalloc, natural, lamb, lastcap>>
+         [] e.ev = "Msg" -> msgs' = Append(msgs, e) /\ UNCHANGED <<hdr, pre, prior, planned, injected, crashed, retv, created, logged, nalloc, natural, lamb, lastcap>>
+         [] e.ev = "Return" ->
+              /\ retv' = e
+              /\ lastcap' = (IF e.kind = "capacity" /\ Has(hdr, "history") /\ injected = "none" /\ natural = "none" /\ e.class # "hang"
+                              THEN [history |-> hdr.history, run |-> hdr.run, op |-> hdr.scenario.op, class |-> e.class, percap |-> e.percap, total |-> e.total]
+                              ELSE lastcap)
+              /\ UNCHANGED <<hdr, pre, prior, planned, injected, crashed, msgs, created, logged, nalloc, natural, lamb>>
          [] e.ev = "Snap" /\ e.when = "post" ->
               /\ (IF (injected # "none" /\ natural # "none") \/ natural = "ENV" THEN TRUE ELSE StateChecks(e, "after"))
               /\ (IF crashed # "none" /\ natural = "ENV" THEN TRUE
@@ -145,14 +177,19 @@ TraceNext ==
                        /\ (IF OpFailed(retv) THEN Report(CoreDiff(pre, e) = "none", "C11", l, "failed-operation-changed-" \o CoreDiff(pre, e) \o "/" \o Where) ELSE TRUE)
                        /\ Report(FailedPartsUntouched(e, retv), "C11", l, "failed-part-changed-its-workload/" \o Where)
                        /\ (IF OpKind = "control" /\ retv.class = "ok" THEN Report(ControlOK(e), "REF", l, "control-changed-records-or-left-wrong-run-state/" \o hdr.scenario.op.delta \o "/" \o Where) ELSE TRUE)
+                       /\ (IF OpKind = "capacity" THEN Report(CoreDiff(pre, e) = "none", "REF", l, "capacity-query-changed-" \o CoreDiff(pre, e) \o "/" \o Where) ELSE TRUE)
+                       /\ (IF OpKind = "capacity" /\ injected = "none" /\ natural = "none" /\ retv.class # "hang" /\ hdr.scenario.op.strategy = "DUMMY" /\ hdr.scenario.op.req \in {"u", "m"}
+                           THEN Report(CapacityByMemoryOK(pre, retv), "REF", l, "capacity-by-memory-differs-from-free-memory/" \o hdr.scenario.op.req \o "/" \o retv.class) ELSE TRUE)
+                       /\ (IF OpKind = "create" /\ lastcap # <<>> /\ injected = "none" /\ retv.class # "hang" /\ SameAsk(lastcap.op, hdr.scenario.op)
+                           THEN Report(CreateFollowsCapacity(e, retv), "REF", l, "deployment-differs-from-reported-capacity/" \o hdr.scenario.op.strategy \o "/" \o hdr.scenario.op.req \o "/capacity-" \o lastcap.class) ELSE TRUE)
                        /\ (IF OpKind = "lambda" /\ retv.class = "ok"
                            THEN /\ Report(LambdaCleaned(e), "C30", l, "run-and-wait-workload-left-behind/" \o hdr.scenario.op.delta)
                                 /\ Report(LambdaLastOK(retv), "C30", l, "exit-code-not-last-message/" \o hdr.scenario.op.delta)
                                 /\ Report(lamb = 0, "C30", l, "recovery-log-entry-not-committed/" \o hdr.scenario.op.delta)
                            ELSE TRUE)
                        /\ (IF OpKind = "lambda" THEN Report(retv.class # "hang" /\ (retv.class = "ok" => retv.closed), "C30", l, "output-stream-never-closed/" \o hdr.scenario.op.delta) ELSE TRUE))
-              /\ UNCHANGED <<hdr, pre, prior, planned, injected, crashed, msgs, retv, created, logged, nalloc, natural, lamb>>
-         [] OTHER -> UNCHANGED <<hdr, pre, prior, planned, injected, crashed, msgs, retv, created, logged, nalloc, natural, lamb>>
+              /\ UNCHANGED <<hdr, pre, prior, planned, injected, crashed, msgs, retv, created, logged, nalloc, natural, lamb, lastcap>>
+         [] OTHER -> UNCHANGED <<hdr, pre, prior, planned, injected, crashed, msgs, retv, created, logged, nalloc, natural, lamb, lastcap>>
     /\ l' = l + 1
 TraceSpec == TraceInit /\ [][TraceNext]_tvars
 TraceAccepted == IF TLCGet("stats").diameter - 1 = Len(Trace)
